@@ -25,41 +25,55 @@ Inductive task :=
 Inductive ev :=
 | EFail (h : nat) | EStatusDown (h : nat) | EStatusUp (h : nat) | EAdd (h : nat) | ERemove (h : nat)
 | EReconnect (k : nat) (o : outcome) | ERun (k : nat) (o : outcome)
-| EProbeStart (k : nat) | EProbeFinish (j : nat) (o : outcome).
+| EProbeStart (k : nat) | EProbeFinish (j : nat) (o : outcome)
+| ESetIgn (e : nat) (b : bool)      (* the load-balancing policy changes its mind about the distance of endpoint e *).
 (* notifications: kind 0 up, 1 down, 2 add, 3 remove; NAttempt = a reconnector opened a connection to host h *)
 Inductive note := NL (kind h : nat) | NP (kind h : nat) | NAttempt (h : nat).
 
+(* a Host OBJECT.  Objects h, h + neps, h + 2 neps ... share the endpoint h mod neps: a node that was removed and a
+   replacement node added later under the same address are different objects that compare equal (Host.__eq__). *)
 Record hst := mkh { present : nat (* 0 absent, 1 in metadata, 2 removed *);
                     up : nat (* 0 down, 1 up, 2 unknown (None) *);
-                    reg : option nat; handling : bool; ign : bool;
-                    pools : nat -> nat (* session -> 0 none, 1 pool whose connection died, 2 pool with open connection *) }.
+                    reg : option nat; handling : bool }.
 Record rcn := mkr { rhost : nat; radd : bool; rcanc : bool; rleft : option nat; rstop : bool }.
 Record st := mks { hosts : nat -> hst; recs : nat -> rcn; nrecs : nat; queue : list task; timers : list nat;
                    probes : list nat (* reconnectors whose connection attempt is in flight *);
-                   gfail : list nat; nextg : nat; order : list nat; nsess : nat; sched : option nat; out : list note }.
+                   gfail : list nat; nextg : nat; order : list nat; nsess : nat; sched : option nat; out : list note;
+                   neps : nat (* number of endpoints *);
+                   eign : nat -> bool (* endpoint -> currently IGNORED by the load-balancing policy *);
+                   epools : nat -> nat -> nat (* Session._pools, keyed by ENDPOINT: endpoint -> session -> 0 none, 1 pool whose
+                                                 connection died, 2 pool with open connection *) }.
 
-Definition set_hosts s v := mks v (recs s) (nrecs s) (queue s) (timers s) (probes s) (gfail s) (nextg s) (order s) (nsess s) (sched s) (out s).
-Definition set_recs s v := mks (hosts s) v (nrecs s) (queue s) (timers s) (probes s) (gfail s) (nextg s) (order s) (nsess s) (sched s) (out s).
-Definition set_nrecs s v := mks (hosts s) (recs s) v (queue s) (timers s) (probes s) (gfail s) (nextg s) (order s) (nsess s) (sched s) (out s).
-Definition set_queue s v := mks (hosts s) (recs s) (nrecs s) v (timers s) (probes s) (gfail s) (nextg s) (order s) (nsess s) (sched s) (out s).
-Definition set_timers s v := mks (hosts s) (recs s) (nrecs s) (queue s) v (probes s) (gfail s) (nextg s) (order s) (nsess s) (sched s) (out s).
-Definition set_probes s v := mks (hosts s) (recs s) (nrecs s) (queue s) (timers s) v (gfail s) (nextg s) (order s) (nsess s) (sched s) (out s).
-Definition set_gfail s v := mks (hosts s) (recs s) (nrecs s) (queue s) (timers s) (probes s) v (nextg s) (order s) (nsess s) (sched s) (out s).
-Definition set_nextg s v := mks (hosts s) (recs s) (nrecs s) (queue s) (timers s) (probes s) (gfail s) v (order s) (nsess s) (sched s) (out s).
-Definition set_order s v := mks (hosts s) (recs s) (nrecs s) (queue s) (timers s) (probes s) (gfail s) (nextg s) v (nsess s) (sched s) (out s).
-Definition set_nsess s v := mks (hosts s) (recs s) (nrecs s) (queue s) (timers s) (probes s) (gfail s) (nextg s) (order s) v (sched s) (out s).
-Definition set_sched s v := mks (hosts s) (recs s) (nrecs s) (queue s) (timers s) (probes s) (gfail s) (nextg s) (order s) (nsess s) v (out s).
-Definition set_out s v := mks (hosts s) (recs s) (nrecs s) (queue s) (timers s) (probes s) (gfail s) (nextg s) (order s) (nsess s) (sched s) v.
+Definition set_hosts s v := mks v (recs s) (nrecs s) (queue s) (timers s) (probes s) (gfail s) (nextg s) (order s) (nsess s) (sched s) (out s) (neps s) (eign s) (epools s).
+Definition set_recs s v := mks (hosts s) v (nrecs s) (queue s) (timers s) (probes s) (gfail s) (nextg s) (order s) (nsess s) (sched s) (out s) (neps s) (eign s) (epools s).
+Definition set_nrecs s v := mks (hosts s) (recs s) v (queue s) (timers s) (probes s) (gfail s) (nextg s) (order s) (nsess s) (sched s) (out s) (neps s) (eign s) (epools s).
+Definition set_queue s v := mks (hosts s) (recs s) (nrecs s) v (timers s) (probes s) (gfail s) (nextg s) (order s) (nsess s) (sched s) (out s) (neps s) (eign s) (epools s).
+Definition set_timers s v := mks (hosts s) (recs s) (nrecs s) (queue s) v (probes s) (gfail s) (nextg s) (order s) (nsess s) (sched s) (out s) (neps s) (eign s) (epools s).
+Definition set_probes s v := mks (hosts s) (recs s) (nrecs s) (queue s) (timers s) v (gfail s) (nextg s) (order s) (nsess s) (sched s) (out s) (neps s) (eign s) (epools s).
+Definition set_gfail s v := mks (hosts s) (recs s) (nrecs s) (queue s) (timers s) (probes s) v (nextg s) (order s) (nsess s) (sched s) (out s) (neps s) (eign s) (epools s).
+Definition set_nextg s v := mks (hosts s) (recs s) (nrecs s) (queue s) (timers s) (probes s) (gfail s) v (order s) (nsess s) (sched s) (out s) (neps s) (eign s) (epools s).
+Definition set_order s v := mks (hosts s) (recs s) (nrecs s) (queue s) (timers s) (probes s) (gfail s) (nextg s) v (nsess s) (sched s) (out s) (neps s) (eign s) (epools s).
+Definition set_nsess s v := mks (hosts s) (recs s) (nrecs s) (queue s) (timers s) (probes s) (gfail s) (nextg s) (order s) v (sched s) (out s) (neps s) (eign s) (epools s).
+Definition set_sched s v := mks (hosts s) (recs s) (nrecs s) (queue s) (timers s) (probes s) (gfail s) (nextg s) (order s) (nsess s) v (out s) (neps s) (eign s) (epools s).
+Definition set_out s v := mks (hosts s) (recs s) (nrecs s) (queue s) (timers s) (probes s) (gfail s) (nextg s) (order s) (nsess s) (sched s) v (neps s) (eign s) (epools s).
+Definition set_neps s v := mks (hosts s) (recs s) (nrecs s) (queue s) (timers s) (probes s) (gfail s) (nextg s) (order s) (nsess s) (sched s) (out s) v (eign s) (epools s).
+Definition set_eign s v := mks (hosts s) (recs s) (nrecs s) (queue s) (timers s) (probes s) (gfail s) (nextg s) (order s) (nsess s) (sched s) (out s) (neps s) v (epools s).
+Definition set_epools s v := mks (hosts s) (recs s) (nrecs s) (queue s) (timers s) (probes s) (gfail s) (nextg s) (order s) (nsess s) (sched s) (out s) (neps s) (eign s) v.
 
 Definition updh (s : st) (h : nat) (f : hst -> hst) : st :=
   set_hosts s (fun x => if x =? h then f (hosts s x) else hosts s x).
 Definition updr (s : st) (r : nat) (f : rcn -> rcn) : st :=
   set_recs s (fun x => if x =? r then f (recs s x) else recs s x).
-Definition h_up v (x : hst) := mkh (present x) v (reg x) (handling x) (ign x) (pools x).
-Definition h_reg v (x : hst) := mkh (present x) (up x) v (handling x) (ign x) (pools x).
-Definition h_handling v (x : hst) := mkh (present x) (up x) (reg x) v (ign x) (pools x).
-Definition h_present v (x : hst) := mkh v (up x) (reg x) (handling x) (ign x) (pools x).
-Definition h_pools v (x : hst) := mkh (present x) (up x) (reg x) (handling x) (ign x) v.
+Definition h_up v (x : hst) := mkh (present x) v (reg x) (handling x).
+Definition h_reg v (x : hst) := mkh (present x) (up x) v (handling x).
+Definition h_handling v (x : hst) := mkh (present x) (up x) (reg x) v.
+Definition h_present v (x : hst) := mkh v (up x) (reg x) (handling x).
+(* endpoint of a host object; distance and pools are per endpoint *)
+Definition ep (s : st) (h : nat) : nat := h mod (neps s).
+Definition ignd (s : st) (h : nat) : bool := eign s (ep s h).
+Definition poolsd (s : st) (h sid : nat) : nat := epools s (ep s h) sid.
+Definition upd_pools (s : st) (h : nat) (f : nat -> nat) : st :=
+  set_epools s (fun e => if e =? ep s h then f else epools s e).
 Definition r_canc v (r : rcn) := mkr (rhost r) (radd r) v (rleft r) (rstop r).
 Definition r_left v (r : rcn) := mkr (rhost r) (radd r) (rcanc r) v (rstop r).
 Definition r_stop v (r : rcn) := mkr (rhost r) (radd r) (rcanc r) (rleft r) v.
@@ -74,24 +88,32 @@ Definition cancel_opt (s : st) (o : option nat) : st :=
 
 (* Session.remove_pool(host) for every session: pop the pool, submit pool.shutdown (cb: Session.on_down's done-callback) *)
 Definition remove_pools (s : st) (h : nat) (cb : bool) : st :=
-  let ps := pools (hosts s h) in
-  enq (updh s h (h_pools (fun _ => 0))) (map (fun sid => TPoolShut h sid cb) (filter (fun sid => negb (ps sid =? 0)) (sessions s))).
+  let ps := poolsd s h in
+  enq (upd_pools s h (fun _ => 0)) (map (fun sid => TPoolShut h sid cb) (filter (fun sid => negb (ps sid =? 0)) (sessions s))).
 
 (* Session.add_or_renew_pool(host, is_add) for every session; None (no future) for an ignored host *)
-Definition has_futures (s : st) (h : nat) : bool := negb (ign (hosts s h)) && negb (nsess s =? 0).
+Definition has_futures (s : st) (h : nat) : bool := negb (ignd s h) && negb (nsess s =? 0).
 Definition add_pools (s : st) (h : nat) (isadd : bool) (g : grp) : st :=
-  if ign (hosts s h) then s else enq s (map (fun sid => TAddPool h sid isadd g) (sessions s)).
+  if ignd s h then s else enq s (map (fun sid => TAddPool h sid isadd g) (sessions s)).
 
-(* Session.update_created_pools for every session (only the branches reachable with a fixed distance per host) *)
+(* Session.update_created_pools: for every host in the metadata: no pool -> create one unless ignored / marked down;
+   a pool but the host is now IGNORED -> remove_pool (pool.shutdown submitted, no callback) *)
 Definition needs_pool (s : st) (sid h : nat) : bool :=
-  let x := hosts s h in (pools x sid =? 0) && negb (ign x) && (1 <=? up x).
-Definition ucp_tasks (s : st) (sid : nat) : list task :=
-  map (fun h => TAddPool h sid false GNone) (filter (needs_pool s sid) (order s)).
-Definition ucp_all (s : st) : st := enq s (flat_map (ucp_tasks s) (sessions s)).
+  (poolsd s h sid =? 0) && negb (ignd s h) && (1 <=? up (hosts s h)).
+Definition drops_pool (s : st) (sid h : nat) : bool := negb (poolsd s h sid =? 0) && ignd s h.
+Definition ucp_task (s : st) (sid h : nat) : list task :=
+  if needs_pool s sid h then [TAddPool h sid false GNone] else if drops_pool s sid h then [TPoolShut h sid false] else [].
+Definition ucp_tasks (s : st) (sid : nat) : list task := flat_map (ucp_task s sid) (order s).
+(* the pools popped by update_created_pools of session sid *)
+Definition ucp_pools (s : st) (sid : nat) (e : nat) (i : nat) : nat :=
+  if (i =? sid) && existsb (fun h => (ep s h =? e) && drops_pool s sid h) (order s) then 0 else epools s e i.
+Definition ucp_one (s : st) (sid : nat) : st :=
+  enq (set_epools s (ucp_pools s sid)) (ucp_tasks s sid).
+Definition ucp_all (s : st) : st := fold_left ucp_one (sessions s) s.
 
 (* Cluster._start_reconnector + _ReconnectionHandler.start (non-empty schedule) *)
 Definition start_reconnector (s : st) (h : nat) (isadd : bool) : st :=
-  if ign (hosts s h) then s else
+  if ignd s h then s else
   if negb (present (hosts s h) =? 1) then s else          (* host no longer in the metadata: removed *)
   let r := nrecs s in
   let old := reg (hosts s h) in
@@ -120,7 +142,7 @@ Definition finalize_add (s : st) (h : nat) (setup : bool) : st :=
 (* Cluster.on_add *)
 Definition on_add (s : st) (h : nat) : st :=
   let s := emit s (NP 2 h) in
-  if ign (hosts s h) then finalize_add s h false else
+  if ignd s h then finalize_add s h false else
   let g := nextg s in
   let s := set_nextg (add_pools s h true (GAdd g)) (S g) in
   if has_futures s h then s else finalize_add s h true.
@@ -134,12 +156,12 @@ Definition on_remove (s : st) (h : nat) : st :=
   let old := reg (hosts s h) in
   cancel_opt (updh s h (h_reg None)) old.
 
-Definition connected (s : st) (h : nat) : bool := existsb (fun sid => pools (hosts s h) sid =? 2) (sessions s).
+Definition connected (s : st) (h : nat) : bool := existsb (fun sid => poolsd s h sid =? 2) (sessions s).
 
 (* body of Cluster.on_down, run by the executor *)
 Definition on_down_task (s : st) (h : nat) (isadd expect : bool) : st :=
   let x := hosts s h in
-  if negb (ign x) && connected s h then s else
+  if negb (ignd s h) && connected s h then s else
   let s := updh s h (h_up 0) in
   if (negb (up x =? 1) && negb expect) || (match reg x with Some _ => true | None => false end) then s else
   let s := emit s (NP 1 h) in
@@ -177,7 +199,7 @@ Definition grp_done (s : st) (h : nat) (g : grp) (res : bool) : st :=
 (* run_add_or_renew_pool *)
 Definition run_addpool (s : st) (h sid : nat) (isadd : bool) (g : grp) (o : outcome) : st :=
   match o with
-  | OOk => grp_done (updh s h (fun x => h_pools (fun i => if i =? sid then 2 else pools x i) x)) h g true
+  | OOk => grp_done (upd_pools s h (fun i => if i =? sid then 2 else poolsd s h i)) h g true
   | OFail => grp_done (enq s [TDown h isadd true]) h g false
   | OAuth => grp_done (enq s [TDown h isadd false]) h g false
   end.
@@ -186,7 +208,7 @@ Definition run_task (s : st) (t : task) (o : outcome) : st :=
   match t with
   | TDown h isadd expect => on_down_task s h isadd expect
   | TAddPool h sid isadd g => run_addpool s h sid isadd g o
-  | TPoolShut h sid cb => if cb then enq s (ucp_tasks s sid) else s
+  | TPoolShut h sid cb => if cb then ucp_one s sid else s
   end.
 
 Fixpoint remove_nth {A} (k : nat) (l : list A) : list A :=
@@ -221,11 +243,11 @@ Definition known (s : st) (h : nat) : bool := negb (present (hosts s h) =? 0).
 Definition step_ (s : st) (e : ev) : st :=
   match e with
   | EFail h => if known s h then
-                 enq (updh s h (fun x => h_pools (fun i => if pools x i =? 2 then 1 else pools x i) x)) [TDown h false false]
+                 enq (upd_pools s h (fun i => if poolsd s h i =? 2 then 1 else poolsd s h i)) [TDown h false false]
                else s
   | EStatusDown h => if known s h then enq s [TDown h false false] else s
   | EStatusUp h => if known s h then on_up s h else s
-  | EAdd h => if present (hosts s h) =? 0 then
+  | EAdd h => if (present (hosts s h) =? 0) && ((h <? neps s) || (present (hosts s (h - neps s)) =? 2)) then
                 on_add (set_order (updh s h (fun x => h_up 2 (h_present 1 x))) (order s ++ [h])) h
               else s
   | ERemove h => if present (hosts s h) =? 1 then on_remove s h else s
@@ -245,6 +267,7 @@ Definition step_ (s : st) (e : ev) : st :=
                         | Some r => probe_finish (set_probes s (remove_nth j (probes s))) r o
                         | None => s
                         end
+  | ESetIgn e b => set_eign s (fun x => if x =? e then b else eign s x)
   end.
 
 Definition step (s : st) (e : ev) : st * list note :=
@@ -252,16 +275,18 @@ Definition step (s : st) (e : ev) : st * list note :=
 
 Definition run (s : st) (es : list ev) : st := fold_left (fun s e => fst (step s e)) es s.
 
-(* initial states: host kinds 0 absent, 1 up with a pool in every session, 2 ignored (in metadata, unknown, no pools) *)
+(* initial states: endpoint kinds 0 absent, 1 up with a pool in every session, 2 ignored (in metadata, unknown, no pools);
+   objects length kinds .. 2 * length kinds - 1 are the (absent) replacement nodes *)
 Definition init_host (k : nat) : hst :=
   match k with
-  | 1 => mkh 1 1 None false false (fun _ => 2)
-  | 2 => mkh 1 2 None false true (fun _ => 0)
-  | _ => mkh 0 2 None false false (fun _ => 0)
+  | 1 => mkh 1 1 None false
+  | 2 => mkh 1 2 None false
+  | _ => mkh 0 2 None false
   end.
 Definition init (kinds : list nat) (ns : nat) (sc : option nat) : st :=
   mks (fun h => init_host (nth h kinds 0)) (fun _ => mkr 0 false true None false) 0 [] [] [] [] 0
-      (filter (fun h => negb (nth h kinds 0 =? 0)) (seq 0 (length kinds))) ns sc [].
+      (filter (fun h => negb (nth h kinds 0 =? 0)) (seq 0 (length kinds))) ns sc []
+      (length kinds) (fun e => nth e kinds 0 =? 2) (fun e _ => if nth e kinds 0 =? 1 then 2 else 0).
 
 (* ---------------------------------------------------------------- observation (compared with the implementation) *)
 Local Open Scope Z_scope.
@@ -271,17 +296,17 @@ Definition obs_host (s : st) (h : nat) : list Z :=
   if (present x =? 0)%nat then [0] else
   [zn (present x); zn (up x); match reg x with None => -1 | Some r => zn r end;
    match reg x with None => -1 | Some r => Z.b2z (rcanc (recs s r)) end; Z.b2z (handling x)]
-  ++ map (fun sid => zn (pools x sid)) (sessions s).
-Definition obs_task (t : task) : Z :=
+  ++ map (fun sid => zn (poolsd s h sid)) (sessions s).
+Definition obs_task (s : st) (t : task) : Z :=
   match t with
   | TDown h a e => 1000 + 100 * zn h + 10 * Z.b2z a + Z.b2z e
   | TAddPool h sid a _ => 2000 + 100 * zn h + 10 * zn sid + Z.b2z a
-  | TPoolShut h sid _ => 3000 + 100 * zn h + 10 * zn sid
+  | TPoolShut h sid _ => 3000 + 100 * zn (ep s h) + 10 * zn sid       (* the pool is known by its endpoint *)
   end.
 Definition obs_note (n : note) : list Z :=
   match n with NL k h => [100 + 10 * zn k + zn h] | NP k h => [200 + 10 * zn k + zn h] | NAttempt h => [300 + zn h] end.
 Definition obs (nh : nat) (s : st) (o : list note) : list Z :=
-  flat_map (obs_host s) (seq 0 nh) ++ [-1] ++ map obs_task (queue s) ++ [-2] ++ map zn (timers s) ++ [-6] ++ map zn (probes s)
+  flat_map (obs_host s) (seq 0 nh) ++ [-1] ++ map (obs_task s) (queue s) ++ [-2] ++ map zn (timers s) ++ [-6] ++ map zn (probes s)
   ++ [-3] ++ map (fun r => 10 * zn (rhost (recs s r)) + Z.b2z (rcanc (recs s r))) (seq 0 (nrecs s))
   ++ [-4] ++ flat_map obs_note o.
 
@@ -296,4 +321,4 @@ Fixpoint zlist_eqb (a b : list Z) : bool :=
 Fixpoint zll_eqb (a b : list (list Z)) : bool :=
   match a, b with [], [] => true | x :: a', y :: b' => zlist_eqb x y && zll_eqb a' b' | _, _ => false end.
 Definition corr (kinds : list nat) (ns : nat) (sc : option nat) (es : list ev) (expected : list (list Z)) : bool :=
-  zll_eqb (trace (length kinds) (init kinds ns sc) es) expected.
+  zll_eqb (trace (2 * length kinds) (init kinds ns sc) es) expected.
